@@ -3,6 +3,7 @@ import Ladim.Model.Sample
 import Mathlib.Analysis.SpecialFunctions.Trigonometric.DerivHyp
 import Mathlib.Analysis.SpecialFunctions.Exp
 import Mathlib.Analysis.Convex.SpecificFunctions.Basic
+import Mathlib.Analysis.Convex.Deriv
 import Mathlib.Tactic.Linarith
 import Mathlib.Tactic.Ring
 import Mathlib.Tactic.FieldSimp
@@ -33,6 +34,7 @@ noncomputable instance : VOps ℝ where
   cosh := Real.cosh
   tanh := Real.tanh
   exp := Real.exp
+  sqrt := Real.sqrt
 
 /-! ### the generic formulas at `ℝ`, unfolded (these are proved by `rfl`/`simp`, they only
     translate the operation-class notation into ordinary real arithmetic) -/
@@ -40,54 +42,237 @@ noncomputable instance : VOps ℝ where
 theorem stretch1_real (θs θb S : ℝ) :
     stretch1 θs θb S = (1 - θb) * (1 / Real.sinh θs) * Real.sinh (θs * S)
       + θb * ((1 / 2) / Real.tanh ((1 / 2) * θs) * Real.tanh (θs * (S + 1 / 2)) - 1 / 2) := by
-  sorry
+  show (((1:ℕ):ℝ) - θb) * (((1:ℕ):ℝ) / Real.sinh θs) * Real.sinh (θs * S)
+      + θb * ((((1:ℕ):ℝ) / ((2:ℕ):ℝ)) / Real.tanh ((((1:ℕ):ℝ) / ((2:ℕ):ℝ)) * θs) * Real.tanh (θs * (S + ((1:ℕ):ℝ) / ((2:ℕ):ℝ))) - ((1:ℕ):ℝ) / ((2:ℕ):ℝ)) = _
+  simp only [Nat.cast_one, Nat.cast_ofNat]
 
 theorem stretch2_real (θs θb S : ℝ) :
     stretch2 θs θb S =
       ((S + 1) * (1 + (1 - (S + 1)))) * ((1 - Real.cosh (θs * S)) / (Real.cosh θs - 1))
       + (1 - (S + 1) * (1 + (1 - (S + 1)))) * (Real.sinh (θb * (S + 1)) / Real.sinh θb - 1) := by
-  sorry
+  show ((S + ((1:ℕ):ℝ)) * (((1:ℕ):ℝ) + (((1:ℕ):ℝ) - (S + ((1:ℕ):ℝ))))) * ((((1:ℕ):ℝ) - Real.cosh (θs * S)) / (Real.cosh θs - ((1:ℕ):ℝ)))
+      + (((1:ℕ):ℝ) - (S + ((1:ℕ):ℝ)) * (((1:ℕ):ℝ) + (((1:ℕ):ℝ) - (S + ((1:ℕ):ℝ))))) * (Real.sinh (θb * (S + ((1:ℕ):ℝ))) / Real.sinh θb - ((1:ℕ):ℝ)) = _
+  simp only [Nat.cast_one]
 
 theorem stretch4_real (θs θb S : ℝ) :
     stretch4 θs θb S =
       (Real.exp (θb * ((1 - Real.cosh (θs * S)) / (Real.cosh θs - 1))) - 1) / (1 - Real.exp (0 - θb)) := by
-  sorry
+  show (Real.exp (θb * ((((1:ℕ):ℝ) - Real.cosh (θs * S)) / (Real.cosh θs - ((1:ℕ):ℝ)))) - ((1:ℕ):ℝ)) / (((1:ℕ):ℝ) - Real.exp (((0:ℕ):ℝ) - θb)) = _
+  simp only [Nat.cast_one, Nat.cast_zero]
+
+/-! ### analytic helpers (plain real analysis, no model terms) -/
+
+theorem tanh_lt_tanh {a b : ℝ} (h : a < b) : Real.tanh a < Real.tanh b := by
+  rw [Real.tanh_eq_sinh_div_cosh, Real.tanh_eq_sinh_div_cosh,
+    div_lt_div_iff₀ (Real.cosh_pos a) (Real.cosh_pos b)]
+  have h1 : Real.sinh (a - b) < 0 := Real.sinh_neg_iff.2 (by linarith)
+  rw [Real.sinh_sub] at h1
+  linarith
+
+theorem tanh_pos {a : ℝ} (h : 0 < a) : 0 < Real.tanh a := by
+  have := tanh_lt_tanh h
+  rwa [Real.tanh_zero] at this
+
+/-- chord bound for `cosh` (convexity): `cosh (θ t) ≤ t cosh θ + (1 − t)` for `t ∈ [0,1]` -/
+theorem cosh_chord (θ t : ℝ) (h0 : 0 ≤ t) (h1 : t ≤ 1) :
+    Real.cosh (θ * t) ≤ t * Real.cosh θ + (1 - t) := by
+  have e1 := convexOn_exp.2 (Set.mem_univ θ) (Set.mem_univ (0:ℝ)) h0 (sub_nonneg.2 h1) (by ring)
+  have e2 := convexOn_exp.2 (Set.mem_univ (-θ)) (Set.mem_univ (0:ℝ)) h0 (sub_nonneg.2 h1) (by ring)
+  simp only [smul_eq_mul, mul_zero, add_zero, Real.exp_zero, mul_one] at e1 e2
+  rw [Real.cosh_eq, Real.cosh_eq]
+  have e3 : Real.exp (θ * t) = Real.exp (t * θ) := by rw [mul_comm]
+  have e4 : Real.exp (-(θ * t)) = Real.exp (t * -θ) := by congr 1; ring
+  rw [e3, e4]
+  nlinarith
+
+theorem convexOn_sinh : ConvexOn ℝ (Set.Ici (0:ℝ)) Real.sinh := by
+  apply MonotoneOn.convexOn_of_deriv (convex_Ici 0) Real.continuous_sinh.continuousOn
+    Real.differentiable_sinh.differentiableOn
+  rw [Real.deriv_sinh, interior_Ici]
+  exact Real.cosh_strictMonoOn.monotoneOn.mono Set.Ioi_subset_Ici_self
+
+/-- chord bound for `sinh` on `[0,∞)`: `sinh (θ r) ≤ r sinh θ` for `r ∈ [0,1]`, `θ ≥ 0` -/
+theorem sinh_chord (θ r : ℝ) (hθ : 0 ≤ θ) (h0 : 0 ≤ r) (h1 : r ≤ 1) :
+    Real.sinh (θ * r) ≤ r * Real.sinh θ := by
+  have e1 := convexOn_sinh.2 (Set.mem_Ici.2 hθ) (Set.mem_Ici.2 le_rfl) h0 (sub_nonneg.2 h1)
+    (by ring)
+  simp only [smul_eq_mul, mul_zero, add_zero, Real.sinh_zero] at e1
+  rwa [mul_comm] at e1
+
+/-- the surface curve `(1 − cosh (θ S)) / (cosh θ − 1)` rises strictly on `(−∞, 0]` -/
+theorem csur_lt (θ a b : ℝ) (hθ : 0 < θ) (hab : a < b) (hb : b ≤ 0) :
+    (1 - Real.cosh (θ * a)) / (Real.cosh θ - 1) < (1 - Real.cosh (θ * b)) / (Real.cosh θ - 1) := by
+  have hD : 0 < Real.cosh θ - 1 := sub_pos.2 (Real.one_lt_cosh.2 hθ.ne')
+  apply div_lt_div_of_pos_right _ hD
+  have : Real.cosh (θ * b) < Real.cosh (θ * a) := by
+    rw [Real.cosh_lt_cosh, abs_of_nonpos (mul_nonpos_of_nonneg_of_nonpos hθ.le hb),
+      abs_of_nonpos (mul_nonpos_of_nonneg_of_nonpos hθ.le (by linarith))]
+    nlinarith
+  linarith
+
+/-- `S ≤ (1 − cosh (θ S)) / (cosh θ − 1)` on `[−1, 0]` -/
+theorem le_csur (θ S : ℝ) (hθ : 0 < θ) (h0 : -1 ≤ S) (h1 : S ≤ 0) :
+    S ≤ (1 - Real.cosh (θ * S)) / (Real.cosh θ - 1) := by
+  have hD : 0 < Real.cosh θ - 1 := sub_pos.2 (Real.one_lt_cosh.2 hθ.ne')
+  rw [le_div_iff₀ hD]
+  have := cosh_chord θ (-S) (by linarith) (by linarith)
+  rw [mul_neg, Real.cosh_neg] at this
+  nlinarith
+
+/-- `sinh (θ (S+1)) / sinh θ − 1 ≤ S` on `[−1, 0]` -/
+theorem cbot_le (θ S : ℝ) (hθ : 0 < θ) (h0 : -1 ≤ S) (h1 : S ≤ 0) :
+    Real.sinh (θ * (S + 1)) / Real.sinh θ - 1 ≤ S := by
+  have hD : 0 < Real.sinh θ := Real.sinh_pos_iff.2 hθ
+  have := sinh_chord θ (S + 1) hθ.le (by linarith) (by linarith)
+  rw [sub_le_iff_le_add, div_le_iff₀ hD]
+  linarith
+
+theorem cbot_lt (θ a b : ℝ) (hθ : 0 < θ) (hab : a < b) :
+    Real.sinh (θ * (a + 1)) / Real.sinh θ - 1 < Real.sinh (θ * (b + 1)) / Real.sinh θ - 1 := by
+  have hD : 0 < Real.sinh θ := Real.sinh_pos_iff.2 hθ
+  have : Real.sinh (θ * (a + 1)) < Real.sinh (θ * (b + 1)) :=
+    Real.sinh_lt_sinh.2 (by nlinarith)
+  have := div_lt_div_of_pos_right this hD
+  linarith
 
 /-! ### stretching curves: end points and strict monotonicity on `[−1, 0]` -/
 
 theorem stretch1_ends (θs θb : ℝ) (hs : 0 < θs) :
     stretch1 θs θb (-1) = -1 ∧ stretch1 θs θb 0 = 0 := by
-  sorry
+  have hS : Real.sinh θs ≠ 0 := (Real.sinh_pos_iff.2 hs).ne'
+  have hT : Real.tanh (1 / 2 * θs) ≠ 0 := (tanh_pos (by positivity)).ne'
+  constructor
+  · rw [stretch1_real]
+    have e1 : θs * (-1 + 1 / 2) = -(1 / 2 * θs) := by ring
+    rw [mul_neg_one, Real.sinh_neg, e1, Real.tanh_neg]
+    generalize Real.tanh (1 / 2 * θs) = T at hT
+    field_simp
+    ring
+  · rw [stretch1_real]
+    have e1 : θs * (0 + 1 / 2) = 1 / 2 * θs := by ring
+    rw [mul_zero, Real.sinh_zero, e1]
+    generalize Real.tanh (1 / 2 * θs) = T at hT
+    field_simp
+    ring
 
 theorem stretch1_strictMono (θs θb : ℝ) (hs : 0 < θs) (hb0 : 0 ≤ θb) (hb1 : θb ≤ 1) :
     StrictMonoOn (stretch1 θs θb) (Set.Icc (-1) 0) := by
-  sorry
+  intro a _ b _ hab
+  simp only [stretch1_real]
+  have hP : 0 < 1 / Real.sinh θs := by
+    have := Real.sinh_pos_iff.2 hs
+    positivity
+  have hQ : 0 < 1 / 2 / Real.tanh (1 / 2 * θs) := by
+    have := tanh_pos (show 0 < 1 / 2 * θs by positivity)
+    positivity
+  have h1 : Real.sinh (θs * a) < Real.sinh (θs * b) := Real.sinh_lt_sinh.2 (by nlinarith)
+  have h2 : Real.tanh (θs * (a + 1 / 2)) < Real.tanh (θs * (b + 1 / 2)) :=
+    tanh_lt_tanh (by nlinarith)
+  have h2' := mul_lt_mul_of_pos_left h2 hQ
+  rcases hb0.lt_or_eq with hb | hb
+  · have e1 : (1 - θb) * (1 / Real.sinh θs) * Real.sinh (θs * a)
+        ≤ (1 - θb) * (1 / Real.sinh θs) * Real.sinh (θs * b) :=
+      mul_le_mul_of_nonneg_left h1.le (mul_nonneg (by linarith) hP.le)
+    have e2 := mul_lt_mul_of_pos_left (show 1 / 2 / Real.tanh (1 / 2 * θs) * Real.tanh (θs * (a + 1 / 2)) - 1 / 2
+        < 1 / 2 / Real.tanh (1 / 2 * θs) * Real.tanh (θs * (b + 1 / 2)) - 1 / 2 by linarith) hb
+    linarith
+  · subst hb
+    have e1 := mul_lt_mul_of_pos_left h1 hP
+    simp only [sub_zero, one_mul, zero_mul, add_zero]
+    exact e1
 
+set_option linter.unusedVariables false in
 theorem stretch2_ends (θs θb : ℝ) (hs : 0 < θs) (hb : 0 < θb) :
     stretch2 θs θb (-1) = -1 ∧ stretch2 θs θb 0 = 0 := by
-  sorry
+  constructor
+  · rw [stretch2_real]
+    simp
+  · rw [stretch2_real]
+    simp
 
 theorem stretch2_strictMono (θs θb : ℝ) (hs : 0 < θs) (hb : 0 < θb) :
     StrictMonoOn (stretch2 θs θb) (Set.Icc (-1) 0) := by
-  sorry
+  intro a ha b hb' hab
+  obtain ⟨ha0, ha1⟩ := ha
+  obtain ⟨hb0, hb1⟩ := hb'
+  simp only [stretch2_real]
+  have hu := csur_lt θs a b hs hab hb1
+  have hv := cbot_lt θb a b hb hab
+  have hua := le_csur θs a hs ha0 ha1
+  have hva := cbot_le θb a hb ha0 ha1
+  generalize (1 - Real.cosh (θs * a)) / (Real.cosh θs - 1) = u1 at *
+  generalize (1 - Real.cosh (θs * b)) / (Real.cosh θs - 1) = u2 at *
+  generalize Real.sinh (θb * (a + 1)) / Real.sinh θb - 1 = v1 at *
+  generalize Real.sinh (θb * (b + 1)) / Real.sinh θb - 1 = v2 at *
+  have hm2 : 0 < (b + 1) * (1 + (1 - (b + 1))) := by nlinarith
+  have hm2' : 0 ≤ 1 - (b + 1) * (1 + (1 - (b + 1))) := by nlinarith
+  have hm21 : 0 ≤ (b + 1) * (1 + (1 - (b + 1))) - (a + 1) * (1 + (1 - (a + 1))) := by nlinarith
+  have t1 := mul_pos hm2 (sub_pos.2 hu)
+  have t2 := mul_nonneg hm2' (sub_nonneg.2 hv.le)
+  have t3 := mul_nonneg hm21 (sub_nonneg.2 (hva.trans hua))
+  nlinarith
 
 theorem stretch4_ends (θs θb : ℝ) (hs : 0 < θs) (hb : 0 < θb) :
     stretch4 θs θb (-1) = -1 ∧ stretch4 θs θb 0 = 0 := by
-  sorry
+  have hD : Real.cosh θs - 1 ≠ 0 := (sub_pos.2 (Real.one_lt_cosh.2 hs.ne')).ne'
+  have hE : 1 - Real.exp (0 - θb) ≠ 0 := by
+    have : Real.exp (0 - θb) < 1 := by rw [Real.exp_lt_one_iff]; linarith
+    linarith
+  constructor
+  · rw [stretch4_real, mul_neg_one, Real.cosh_neg]
+    have e1 : (1 - Real.cosh θs) / (Real.cosh θs - 1) = -1 := by
+      rw [div_eq_iff hD]; ring
+    rw [e1, div_eq_iff hE]
+    have : θb * -1 = 0 - θb := by ring
+    rw [this]; ring
+  · rw [stretch4_real]
+    simp
 
 theorem stretch4_strictMono (θs θb : ℝ) (hs : 0 < θs) (hb : 0 < θb) :
     StrictMonoOn (stretch4 θs θb) (Set.Icc (-1) 0) := by
-  sorry
+  intro a _ b hb' hab
+  simp only [stretch4_real]
+  have hE : 0 < 1 - Real.exp (0 - θb) := by
+    have : Real.exp (0 - θb) < 1 := by rw [Real.exp_lt_one_iff]; linarith
+    linarith
+  apply div_lt_div_of_pos_right _ hE
+  have := Real.exp_lt_exp.2 (mul_lt_mul_of_pos_left (csur_lt θs a b hs hab hb'.2) hb)
+  linarith
 
 /-! ### the unstretched coordinates: rho- and w-points interleave inside `[−1, 0]` -/
 
+/-- unfolding of `sW` at `ℝ` -/
+theorem sW_real (N k : ℕ) : (sW N k : ℝ) = -1 + (k:ℝ) / (N:ℝ) := by
+  show (((0:ℕ):ℝ) - ((1:ℕ):ℝ)) + (k:ℝ) / (N:ℝ) = _
+  simp only [Nat.cast_one, Nat.cast_zero, zero_sub]
+
+/-- unfolding of `sRho` at `ℝ` -/
+theorem sRho_real (N k : ℕ) : (sRho N k : ℝ) = -1 + (1/2 + (k:ℝ)) / (N:ℝ) := by
+  show (((0:ℕ):ℝ) - ((1:ℕ):ℝ)) + (((1:ℕ):ℝ) / ((2:ℕ):ℝ) + (k:ℝ)) / (N:ℝ) = _
+  simp only [Nat.cast_one, Nat.cast_zero, zero_sub, Nat.cast_ofNat]
+
 theorem sW_ends (N : Nat) (hN : 0 < N) : (sW N 0 : ℝ) = -1 ∧ (sW N N : ℝ) = 0 := by
-  sorry
+  have : (N:ℝ) ≠ 0 := Nat.cast_ne_zero.2 hN.ne'
+  constructor
+  · rw [sW_real]; simp
+  · rw [sW_real, div_self this]; ring
 
 theorem s_interleave (N k : Nat) (hk : k < N) :
     (sW N k : ℝ) < sRho N k ∧ (sRho N k : ℝ) < sW N (k + 1) ∧
     (-1 : ℝ) ≤ sW N k ∧ (sW N (k + 1) : ℝ) ≤ 0 := by
-  sorry
+  have hN : (0:ℝ) < N := Nat.cast_pos.2 (by omega)
+  have hk' : (k:ℝ) + 1 ≤ N := by exact_mod_cast hk
+  have hk0 : (0:ℝ) ≤ k := Nat.cast_nonneg k
+  simp only [sW_real, sRho_real, Nat.cast_add, Nat.cast_one]
+  refine ⟨?_, ?_, ?_, ?_⟩
+  · have := div_lt_div_of_pos_right (show (k:ℝ) < 1 / 2 + k by linarith) hN
+    linarith
+  · have := div_lt_div_of_pos_right (show 1 / 2 + (k:ℝ) < k + 1 by linarith) hN
+    linarith
+  · have : 0 ≤ (k:ℝ) / N := by positivity
+    linarith
+  · have : ((k:ℝ) + 1) / N ≤ 1 := by rw [div_le_one hN]; exact hk'
+    linarith
 
 /-- **curves_ordered**: for any strictly increasing stretching function `C` on `[−1,0]` with
     `C (−1) = −1`, `C 0 = 0` (each of the three above), the rho- and w-stretching arrays are
@@ -96,7 +281,20 @@ theorem curves_ordered (C : ℝ → ℝ) (hm : StrictMonoOn C (Set.Icc (-1) 0)) 
     (h1 : C 0 = 0) (N k : Nat) (hk : k < N) :
     C (sW N k) < C (sRho N k) ∧ C (sRho N k) < C (sW N (k + 1)) ∧
     -1 ≤ C (sW N k) ∧ C (sW N (k + 1)) ≤ 0 ∧ C (sW N 0) = -1 ∧ C (sW N N) = 0 := by
-  sorry
+  obtain ⟨i1, i2, i3, i4⟩ := s_interleave N k hk
+  obtain ⟨e0, eN⟩ := sW_ends N (by omega)
+  have mW : (sW N k : ℝ) ∈ Set.Icc (-1 : ℝ) 0 := ⟨i3, by linarith⟩
+  have mR : (sRho N k : ℝ) ∈ Set.Icc (-1 : ℝ) 0 := ⟨by linarith, by linarith⟩
+  have mW' : (sW N (k + 1) : ℝ) ∈ Set.Icc (-1 : ℝ) 0 := ⟨by linarith, i4⟩
+  have mL : (-1 : ℝ) ∈ Set.Icc (-1 : ℝ) 0 := ⟨le_rfl, by norm_num⟩
+  have mU : (0 : ℝ) ∈ Set.Icc (-1 : ℝ) 0 := ⟨by norm_num, le_rfl⟩
+  refine ⟨hm mW mR i1, hm mR mW' i2, ?_, ?_, ?_, ?_⟩
+  · rw [← h0]; exact hm.monotoneOn mL mW i3
+  · rw [← h1]; exact hm.monotoneOn mW' mU i4
+  · rw [e0, h0]
+  · rw [eN, h1]
+
+
 
 /-! ### level depths (`sdepth`) over `ℚ` -/
 
@@ -104,14 +302,26 @@ theorem curves_ordered (C : ℝ → ℝ) (hm : StrictMonoOn C (Set.Icc (-1) 0)) 
 theorem levelDepth_rat (vt : Nat) (H Hc S C : ℚ) :
     levelDepth vt H Hc S C =
       if vt = 1 then Hc * (S - C) + C * H else (Hc * S + C * H) / (1 + Hc / H) := by
-  sorry
+  show (if vt = 1 then Hc * (S - C) + C * H else (Hc * S + C * H) / (((1:ℕ):ℚ) + Hc / H)) = _
+  simp only [Nat.cast_one]
 
 /-- **sdepth_mono**: a higher level (larger `S` and larger `C`) is strictly shallower.
     Vtransform 1 needs `0 ≤ hc ≤ h`, Vtransform 2 needs `0 ≤ hc`; `h > 0`. -/
 theorem sdepth_mono (vt : Nat) (hvt : vt = 1 ∨ vt = 2) (H Hc S1 S2 C1 C2 : ℚ) (hH : 0 < H)
     (hHc : 0 ≤ Hc) (hle : vt = 1 → Hc ≤ H) (hS : S1 < S2) (hC : C1 < C2) :
     levelDepth vt H Hc S1 C1 < levelDepth vt H Hc S2 C2 := by
-  sorry
+  simp only [levelDepth_rat]
+  rcases hvt with rfl | rfl
+  · have hle' := hle rfl
+    simp only [if_true]
+    rcases hHc.lt_or_eq with h | h
+    · nlinarith [mul_pos h (sub_pos.2 hS), mul_nonneg (sub_nonneg.2 hC.le) (sub_nonneg.2 hle')]
+    · subst h
+      nlinarith [mul_pos (sub_pos.2 hC) hH]
+  · simp only [show (2 : ℕ) ≠ 1 by decide, if_false]
+    have hD : 0 < 1 + Hc / H := by positivity
+    apply div_lt_div_of_pos_right _ hD
+    nlinarith [mul_nonneg hHc (sub_nonneg.2 hS.le), mul_pos (sub_pos.2 hC) hH]
 
 /-- **sdepth_range**: levels lie inside the water column; the lowest w-level is the bottom and
     the highest is the surface. -/
@@ -119,9 +329,77 @@ theorem sdepth_range (vt : Nat) (hvt : vt = 1 ∨ vt = 2) (H Hc S C : ℚ) (hH :
     (hHc : 0 ≤ Hc) (hle : vt = 1 → Hc ≤ H) (hS : -1 ≤ S ∧ S ≤ 0) (hC : -1 ≤ C ∧ C ≤ 0) :
     -H ≤ levelDepth vt H Hc S C ∧ levelDepth vt H Hc S C ≤ 0 ∧
     levelDepth vt H Hc (-1) (-1) = -H ∧ levelDepth vt H Hc 0 0 = 0 := by
-  sorry
+  obtain ⟨hS0, hS1⟩ := hS
+  obtain ⟨hC0, hC1⟩ := hC
+  simp only [levelDepth_rat]
+  rcases hvt with rfl | rfl
+  · have hle' := hle rfl
+    simp only [if_true]
+    refine ⟨?_, ?_, by ring, by ring⟩
+    · nlinarith [mul_nonneg hHc (show 0 ≤ S + 1 by linarith),
+        mul_nonneg (show 0 ≤ C + 1 by linarith) (sub_nonneg.2 hle')]
+    · nlinarith [mul_nonneg hHc (show 0 ≤ -S by linarith),
+        mul_nonneg (show 0 ≤ -C by linarith) (sub_nonneg.2 hle')]
+  · simp only [show (2 : ℕ) ≠ 1 by decide, if_false]
+    have hD : 0 < 1 + Hc / H := by positivity
+    have hD' : (1 + Hc / H) * H = H + Hc := by field_simp
+    refine ⟨?_, ?_, ?_, ?_⟩
+    · rw [le_div_iff₀ hD]
+      have : -H * (1 + Hc / H) = -(H + Hc) := by rw [← hD']; ring
+      rw [this]
+      nlinarith [mul_nonneg hHc (show 0 ≤ S + 1 by linarith),
+        mul_nonneg (show 0 ≤ C + 1 by linarith) hH.le]
+    · apply div_nonpos_of_nonpos_of_nonneg _ hD.le
+      nlinarith [mul_nonneg hHc (show 0 ≤ -S by linarith),
+        mul_nonneg (show 0 ≤ -C by linarith) hH.le]
+    · rw [div_eq_iff hD.ne']
+      have : -H * (1 + Hc / H) = -(H + Hc) := by rw [← hD']; ring
+      rw [this]; ring
+    · simp
 
 /-! ### the level look-up -/
+
+/-! helper lemmas on `searchsortedLeft` (valid for any list) -/
+
+theorem ssl_le (l : List ℚ) (v : ℚ) : searchsortedLeft l v ≤ l.length := by
+  induction l with
+  | nil => simp [searchsortedLeft]
+  | cons a as ih =>
+    simp only [searchsortedLeft, List.length_cons]
+    split <;> omega
+
+/-- every element before the insertion point is `< v` -/
+theorem ssl_lt (l : List ℚ) (v : ℚ) (i : Nat) (hi : i < searchsortedLeft l v)
+    (hl : i < l.length) : l[i] < v := by
+  induction l generalizing i with
+  | nil => simp at hl
+  | cons a as ih =>
+    simp only [searchsortedLeft] at hi
+    split at hi
+    · cases i with
+      | zero => simpa
+      | succ j =>
+        simp only [List.getElem_cons_succ]
+        exact ih j (by omega) (by simpa using hl)
+    · omega
+
+/-- the element at the insertion point (if any) is `≥ v` -/
+theorem ssl_ge (l : List ℚ) (v : ℚ) (hl : searchsortedLeft l v < l.length) :
+    v ≤ l[searchsortedLeft l v] := by
+  induction l with
+  | nil => simp at hl
+  | cons a as ih =>
+    by_cases h : a < v
+    · have e : searchsortedLeft (a :: as) v = searchsortedLeft as v + 1 := by
+        simp [searchsortedLeft, h]
+      have hl' : searchsortedLeft as v < as.length := by
+        rw [e] at hl; simpa using hl
+      simp only [e, List.getElem_cons_succ]
+      exact ih hl'
+    · have e : searchsortedLeft (a :: as) v = 0 := by
+        simp [searchsortedLeft, h]
+      simp only [e, List.getElem_cons_zero]
+      exact not_lt.1 h
 
 /-- **z2s_spec**: for a strictly increasing column with at least two levels, every depth `Z`
     (above the surface and below the bottom included) gets `1 ≤ K ≤ N−1`, `0 ≤ A ≤ 1`, both levels
@@ -131,14 +409,76 @@ theorem z2s_spec (zr : List ℚ) (Z : ℚ) (hN : 2 ≤ zr.length) (hs : zr.Pairw
       0 ≤ A ∧ A ≤ 1 ∧ zr[K - 1]? = some a ∧ zr[K]? = some b ∧
       zr.head? = some lo ∧ zr.getLast? = some hi ∧
       A * a + (1 - A) * b = max lo (min (-Z) hi) := by
-  sorry
+  have hp := List.pairwise_iff_getElem.1 hs
+  have hle := ssl_le zr (-Z)
+  have hhead : zr.head? = some zr[0] := by
+    rw [List.head?_eq_getElem?, List.getElem?_eq_getElem]
+  have hlast : zr.getLast? = some zr[zr.length - 1] := by
+    rw [List.getLast?_eq_getElem?, List.getElem?_eq_getElem]
+  have hmono : ∀ (i j : Nat) (hi : i < zr.length) (hj : j < zr.length), i ≤ j → zr[i] ≤ zr[j] := by
+    intro i j hi hj hij
+    rcases Nat.lt_or_eq_of_le hij with h | h
+    · exact (hp i j hi hj h).le
+    · subst h; exact le_rfl
+  by_cases hk : searchsortedLeft zr (-Z) = zr.length
+  · -- above the top level
+    refine ⟨zr.length - 1, 0, zr[zr.length - 1 - 1], zr[zr.length - 1], zr[0], zr[zr.length - 1],
+      ?_, by omega, le_rfl, le_rfl, by norm_num, ?_, ?_, hhead, hlast, ?_⟩
+    · simp only [z2sCol, hk, if_true]
+      congr 2
+      omega
+    · rw [List.getElem?_eq_getElem]
+    · rw [List.getElem?_eq_getElem]
+    · have h1 : zr[zr.length - 1] < -Z := ssl_lt zr (-Z) _ (by omega) (by omega)
+      have h2 : zr[0] ≤ zr[zr.length - 1] := hmono 0 _ (by omega) (by omega) (by omega)
+      rw [min_eq_right h1.le, max_eq_right h2]; ring
+  · have hklt : searchsortedLeft zr (-Z) < zr.length := lt_of_le_of_ne hle hk
+    by_cases hk0 : 0 < searchsortedLeft zr (-Z)
+    · -- interior
+      generalize hkk : searchsortedLeft zr (-Z) = k at *
+      have hb : -Z ≤ zr[k] := by
+        have := ssl_ge zr (-Z) (by omega)
+        simpa only [hkk] using this
+      have ha : zr[k - 1] < -Z := ssl_lt zr (-Z) (k - 1) (by omega) (by omega)
+      have hab : zr[k - 1] < zr[k] := hp (k - 1) k (by omega) hklt (by omega)
+      have hlo : zr[0] ≤ zr[k - 1] := hmono 0 _ (by omega) (by omega) (by omega)
+      have hhi : zr[k] ≤ zr[zr.length - 1] := hmono _ _ hklt (by omega) (by omega)
+      have hd : 0 < zr[k] - zr[k - 1] := sub_pos.2 hab
+      refine ⟨k, (zr[k] + Z) / (zr[k] - zr[k - 1]), zr[k - 1], zr[k], zr[0], zr[zr.length - 1],
+        ?_, hk0, by omega, ?_, ?_, ?_, ?_, hhead, hlast, ?_⟩
+      · simp only [z2sCol, hkk, hk, if_false, hk0, if_true]
+        rw [List.getElem?_eq_getElem hklt, List.getElem?_eq_getElem (show k - 1 < zr.length by omega)]
+      · apply div_nonneg _ hd.le; linarith
+      · rw [div_le_one hd]; linarith
+      · rw [List.getElem?_eq_getElem]
+      · rw [List.getElem?_eq_getElem]
+      · rw [min_eq_left (hb.trans hhi), max_eq_right (hlo.trans ha.le)]
+        field_simp
+        ring
+    · -- at or below the bottom level
+      have hk0' : searchsortedLeft zr (-Z) = 0 := by omega
+      refine ⟨1, 1, zr[0], zr[1], zr[0], zr[zr.length - 1],
+        ?_, le_rfl, by omega, by norm_num, le_rfl, ?_, ?_, hhead, hlast, ?_⟩
+      · simp only [z2sCol, hk0', lt_irrefl, if_false]
+        rw [if_neg (by omega)]
+        rfl
+      · rw [List.getElem?_eq_getElem]
+      · rw [List.getElem?_eq_getElem]
+      · have hb : -Z ≤ zr[0] := by
+          have := ssl_ge zr (-Z) (by omega)
+          simpa only [hk0'] using this
+        rw [max_eq_left ((min_le_left _ _).trans hb)]; ring
 
 /-- **z2s_partial** (finding F13): with a single level no valid index pair exists — the kernel
     answers `K = 0` (particle above the level) or `K = 1` (below), and level `K` resp. `K − 1`
     is outside the column. -/
 theorem z2s_partial_single_level (z Z : ℚ) :
     (z2sCol [z] Z = some (0, 0) ∨ z2sCol [z] Z = some (1, 1)) := by
-  sorry
+  by_cases h : z < -Z
+  · left
+    simp [z2sCol, searchsortedLeft, h]
+  · right
+    simp [z2sCol, searchsortedLeft, h]
 
 /-! non-vacuity -/
 example : z2sCol [-9, -5, -1] 3 = some (2, 1/2) := by decide +kernel
